@@ -59,7 +59,12 @@ func c14ItemSQL(it c14Item) string {
 	case "once":
 		return fmt.Sprintf("ONCE.%s(%d, %s) AS %s", it.Stub, it.Site, arg, it.Alias)
 	case "immq":
-		return fmt.Sprintf("%s.imm(%d, %s) AS %s", it.Qual, it.Site, arg, it.Alias)
+		// it.Qual carries the spelling of qualifier and function name, e.g. "Async.IMM"
+		q := it.Qual
+		if !strings.Contains(q, ".") {
+			q += ".imm"
+		}
+		return fmt.Sprintf("%s(%d, %s) AS %s", q, it.Site, arg, it.Alias)
 	case "global":
 		// GLOBAL takes subqueries only; the call-site id travels as a one-cell subquery
 		return fmt.Sprintf("GLOBAL.%s((SELECT %d AS i FROM dual), (SELECT a FROM `<-t`)) AS %s", it.Stub, it.Site, it.Alias)
@@ -242,7 +247,7 @@ func genC14(t *rapid.T) *Bundle {
 			}
 			usedGlobal[it.Stub] = true
 		case "immq":
-			it.Qual = rapid.SampledFrom([]string{"ASYNC", "SPIN", "SPINASYNC"}).Draw(t, "qual")
+			it.Qual = rapid.SampledFrom([]string{"ASYNC", "SPIN", "SPINASYNC", "async.imm", "Async.IMM", "SPIN.Imm", "spinasync.IMM"}).Draw(t, "qual")
 			it.Stub = "imm"
 			hasImmq = true
 		default:
